@@ -69,7 +69,8 @@ def atoms_for(vars_: List[Tuple[str, str]]) -> List[str]:
     for x in tree_vars:
         out += ['(= %s "a")' % x, "(> (str.len %s) 1)" % x, '(str.prefixof "a" %s)' % x,
                 '(str.in_re %s (re.+ (re.range "a" "c")))' % x, 'count(%s, "<var>", "2")' % x,
-                '(str.contains %s "1")' % x, '(< (str.to.int %s) 5)' % x, 'inside(%s, start)' % x]
+                '(str.contains %s "1")' % x, '(< (str.to.int %s) 5)' % x, 'inside(%s, start)' % x,
+                '(>= (str.len %s) 0)' % x, '(str.in_re %s re.all)' % x]
     for x, y in itertools.permutations(tree_vars, 2):
         out += ["(= %s %s)" % (x, y), "before(%s, %s)" % (x, y), "same_position(%s, %s)" % (x, y),
                 "inside(%s, %s)" % (x, y), '(str.<= %s %s)' % (x, y), 'level("GE", "<stmt>", %s, %s)' % (x, y),
@@ -187,37 +188,45 @@ def ast_family(tier: str) -> List[Tuple[str, Callable[[], L.Formula]]]:
 # Concrete witness search (replay stage): a `sat` FOL answer becomes a VIOLATION only with a real
 # tree on which the real evaluate() gives different verdicts.
 
-_TREES: Optional[List[Any]] = None
+_TREES: Dict[str, List[Any]] = {}
 
 
-def witness_trees() -> List[Any]:
-    global _TREES
-    if _TREES is not None:
-        return _TREES
-    stmts1 = ["%s := %s" % (l, r) for l in "ab" for r in ("a", "b", "1", "7")]
-    progs = list(stmts1)
-    progs += ["%s ; %s" % (s, t) for s in stmts1 for t in stmts1]
-    progs += ["a := 1 ; b := a ; a := b", "b := 7 ; a := a ; a := 1", "a := a ; a := a ; a := a",
-              "a := b ; b := 1 ; a := 7 ; b := b"]
-    _TREES = [vlib.parse_tree(G, p) for p in progs]
-    return _TREES
+def witness_trees(gname: str = "lang") -> List[Any]:
+    if gname in _TREES:
+        return _TREES[gname]
+    if gname == "lang":
+        stmts1 = ["%s := %s" % (l, r) for l in "ab" for r in ("a", "b", "1", "7")]
+        progs = list(stmts1)
+        progs += ["%s ; %s" % (s, t) for s in stmts1 for t in stmts1]
+        progs += ["a := 1 ; b := a ; a := b", "b := 7 ; a := a ; a := 1", "a := a ; a := a ; a := a",
+                  "a := b ; b := 1 ; a := 7 ; b := b", "c := c", "c := 1 ; a := c"]
+        gram = G
+    elif gname == "xml":
+        progs = ["<a/>", "<b/>", "<a>x</a>", "<a>y</b>", "<b><a/></b>", "<a><b/>x</a>", "<a><a/><b/></b>",
+                 "<b><a>x</a><b/></a>", "<a><b><a/></b></a>", "<b><b/><b>y</b>x</b>"]
+        gram = vlib.XMLISH_GRAMMAR
+    else:
+        progs = ['k"v"', 'q"w"', "k\\v", "q\\'", "k\nw", "{v}", "{'}", "[w]", "k\tv", 'k"\'"']
+        gram = ESC_GRAMMAR
+    _TREES[gname] = [vlib.parse_tree(gram, p) for p in progs]
+    return _TREES[gname]
 
 
-def verdict(formula: L.Formula, tree) -> str:
+def verdict(formula: L.Formula, tree, gname: str = "lang") -> str:
     from isla.evaluator import evaluate
     try:
-        return str(evaluate(formula, tree, G))
+        return str(evaluate(formula, tree, GRAMMARS[gname]))
     except Exception as e:  # noqa
         return "raised %s: %s" % (type(e).__name__, str(e)[:120])
 
 
-def find_witness(f1: L.Formula, f2: L.Formula, negated: bool, limit_s: float = 60.0) -> Optional[Dict[str, Any]]:
+def find_witness(f1: L.Formula, f2: L.Formula, negated: bool, limit_s: float = 60.0, gname: str = "lang") -> Optional[Dict[str, Any]]:
     """A tree where verdict(f1) != verdict(f2) (or, if negated, where they are equal / not opposite)."""
     t0 = time.time()
-    for t in witness_trees():
+    for t in witness_trees(gname):
         if time.time() - t0 > limit_s:
             break
-        v1, v2 = verdict(f1, t), verdict(f2, t)
+        v1, v2 = verdict(f1, t, gname), verdict(f2, t, gname)
         if v1.startswith("raised") or v2.startswith("raised"):
             return dict(tree=str(t), v1=v1, v2=v2)
         if negated:
@@ -237,7 +246,7 @@ def _exc_key(e: BaseException) -> str:
 
 
 def check_equiv(enc: "fol.Encoder", f1: L.Formula, f2: L.Formula, negated: bool, name: str,
-                timeout_ms: int = 5000, recheck: bool = True) -> Dict[str, Any]:
+                timeout_ms: int = 5000, recheck: bool = True, gname: str = "lang") -> Dict[str, Any]:
     """One obligation: enc(f1) <=> (not) enc(f2) for all trees.  Returns a result dict with
     verdict in {discharged, violated, inconclusive} (violated only with a concrete witness)."""
     try:
@@ -261,7 +270,7 @@ def check_equiv(enc: "fol.Encoder", f1: L.Formula, f2: L.Formula, negated: bool,
         out["verdict"] = "discharged"
         return out
     if r == "sat":
-        w = find_witness(f1, f2, negated)
+        w = find_witness(f1, f2, negated, gname=gname)
         if w is None:
             out.update(verdict="inconclusive", reason="FOL-inequivalent but no concrete witness tree found "
                        "(abstraction has no tree axioms)")
@@ -328,8 +337,8 @@ def c09_worker(job: Dict[str, Any]) -> Dict[str, Any]:
     # vacuity guard: a seeded wrong rewrite (outermost quantifier kept under negation) must be refuted
     guard = None
     if isinstance(F, (L.ForallFormula, L.ExistsFormula)):
-        W = type(F)(F.bound_variable, F.in_variable, -F.inner_formula, F.bind_expression)
         try:
+            W = type(F)(F.bound_variable, F.in_variable, L.NegatedFormula(F.inner_formula), F.bind_expression)
             r, dt, _ = fol.equivalent(enc.enc(F), enc.enc(W), True, 5000)
             guard = r
         except fol.Unsupported:
@@ -342,3 +351,235 @@ def run_pool(worker, jobs: List[Dict[str, Any]], nproc: int) -> List[Dict[str, A
     ctx = mp.get_context("fork")
     with ctx.Pool(nproc) as pool:
         return list(pool.imap_unordered(worker, jobs, chunksize=4))
+
+
+# --------------------------------------------------------------------------
+# More grammars and the sugared / escaping families (C07, C08)
+
+ESC_GRAMMAR = {
+    "<start>": ["<pair>"],
+    "<pair>": ['<key>"<val>"', "<key>\\<val>", "<key>\n<val>", "{<val>}", "[<val>]", "<key>\t<val>"],
+    "<key>": ["k", "q"],
+    "<val>": ["v", "w", "'"],
+}
+
+GRAMMARS = {"lang": G, "esc": ESC_GRAMMAR, "xml": vlib.XMLISH_GRAMMAR}
+
+
+def sugar_texts(tier: str) -> List[Tuple[str, str]]:
+    """(grammar name, text) in simplified syntax: free nonterminals, omitted `in start` / names,
+    XPath child, index and descendant axes, infix/prefix SMT, negative literals, implies/iff/xor."""
+    T: List[Tuple[str, str]] = []
+    lang = [
+        '<var> = "a"',
+        '<var> = "a" and <digit> = "1"',
+        '<var> = "a" or <digit> = "1"',
+        'not <var> = "a"',
+        '<var> = "a" implies <digit> = "1"',
+        '<var> = "a" iff <rhs> = "1"',
+        '<var> = "a" xor <rhs> = "1"',
+        '<assgn>.<var> = "a"',
+        '<assgn>.<rhs>.<var> = "a"',
+        '<assgn>.<rhs>.<var> = <assgn>.<var>',
+        '<stmt>.<assgn>.<var> = "a"',
+        '<stmt>.<stmt>.<assgn>.<var> = "b"',
+        '<assgn>..<var> = "a"',
+        '<stmt>..<digit> = "1"',
+        '<stmt>.<assgn>..<var> = "c"',
+        '<start>..<var> = "a"',
+        '<start>.<stmt>.<assgn>.<var> = "a"',
+        'str.len(<var>) > 0',
+        'str.len(<var>) >= 1 and str.to.int(<digit>) < 5',
+        'str.to.int(<digit>) + 1 = 5',
+        'str.to.int(<digit>) > -1',
+        'str.to.int(<digit>) * 2 mod 3 = 1',
+        '17 + str.to.int(<digit>) = 20',
+        'str.prefixof("a", <var>)',
+        'str.in_re(<var>, re.+(re.range("a", "c")))',
+        '(= <var> "a")',
+        'forall <assgn> a: exists <var> v in a: v = "a"',
+        'forall <assgn>: exists <var> in <assgn>: <var> = "a"',
+        'exists <assgn>: <assgn> = "a := b"',
+        'exists <assgn> decl: (before(decl, <assgn>) and <assgn>.<rhs>.<var> = decl.<var>)',
+        'forall <assgn> a="{<var> l} := {<rhs> r}": l = r',
+        'forall <assgn> a="{<var> l} := {<rhs> r}": (l = r implies str.len(r) = 1)',
+        'exists <assgn> a: forall <assgn> b: (before(a, b) or same_position(a, b))',
+        'forall <assgn> a: a.<rhs>.<digit> = "1"',
+        'forall <assgn> a: (a.<var> = "a" implies a.<rhs>.<digit> = "1")',
+        'exists int n: (str.to.int(n) = str.len(<var>) and count(start, "<assgn>", n))',
+        'forall int n: (count(<stmt>, "<var>", n) implies str.to.int(n) > 0)',
+        'count(<stmt>, "<assgn>", "2")',
+        'level("GE", "<stmt>", <var>, <digit>)',
+        'nth("1", <var>, <assgn>)',
+        'inside(<var>, <rhs>) implies <var> = "b"',
+        'before(<var>, <digit>) and not <var> = "c"',
+        '<assgn> = "a := 1" or <assgn>.<var> = "b"',
+        'start = "a := 1"',
+        '<start> = "a := 1"',
+        'exists <stmt> s in start: s = "a := 1"',
+        'const t: <start>; forall <var> v in t: v = "a"',
+    ]
+    T += [("lang", t) for t in lang]
+    xml = [
+        '<tree>.<id> = "a"',
+        '<tree>.<id>[2] = "a"',
+        '<tree>.<id>[1] = <tree>.<id>[2]',
+        '<tree>.<inner>.<tree>.<id> = "b"',
+        '<tree>..<id> = "a"',
+        '<inner>.<tree>[1].<id> = "a"',
+        'forall <tree> t="<{<id> o}><inner></{<id> c}>": o = c',
+        'forall <tree> t="<{<id> o}[<inner>]</{<id> c}>": o = c' if False else 'exists <tree> t="<{<id> o}/>": o = "a"',
+        '<tree>.<id> = "a" implies <text> = "x"',
+        'str.len(<tree>.<inner>.<text>) = 1',
+    ]
+    T += [("xml", t) for t in xml]
+    esc = [
+        r'forall <pair> p="{<key> k}\"{<val> v}\"" in start: (= k "k")',
+        r'forall <pair> p="{<key> k}\\{<val> v}" in start: (= v "w")',
+        r'forall <pair> p="{<key> k}\n{<val> v}" in start: (= v "w")',
+        r'forall <pair> p="{<key> k}\t{<val> v}" in start: (= v "w")',
+        r'forall <pair> p="{{{<val> v}}}" in start: (= v "w")',
+        r'forall <pair> p="[{<val> v}]" in start: (= v "w")' if False else r'forall <val> v in start: (= v "\"")',
+        r'forall <val> v in start: (= v "\\")',
+        r'forall <val> v in start: (not (= v "a\nb"))',
+        r"""forall <val> v in start: (= v "'")""",
+        r'forall <pair> p in start: (str.contains p "\"")',
+        r'forall <pair> p in start: (str.contains p "\\")',
+        r'forall <pair> p in start: (str.contains p "\t")',
+        'forall <pair> p in start: (str.contains p "é")',
+        r'<pair>.<val> = "\""',
+        r'<pair>.<key> = "k" and <pair>.<val> = "v"',
+    ]
+    T += [("esc", t) for t in esc]
+    return T
+
+
+def smt_operator_texts() -> List[Tuple[str, str]]:
+    """One constraint per SMT-LIB operator token of the ISLa lexer (S-expression form)."""
+    v = "v"
+    ops = [
+        '(= (abs (str.to.int d)) 1)', '(str.in_re v (re.+ (str.to_re "a")))', '(str.in_re v (re.* (str.to_re "a")))',
+        '(= (str.len v) 1)', '(str.in_re v re.none)', '(str.in_re v re.all)', '(str.in_re v re.allchar)',
+        '(= (str.at v 0) "a")', '(= (str.substr v 0 1) "a")', '(str.prefixof "a" v)', '(str.suffixof "a" v)',
+        '(str.contains v "a")', '(= (str.indexof v "a" 0) 0)', '(= (str.replace v "a" "b") "b")',
+        '(= (str.replace_all v "a" "b") "b")', '(= (str.replace_re v (str.to_re "a") "b") "b")',
+        '(= (str.replace_re_all v (str.to_re "a") "b") "b")',
+        '(str.in_re v (re.union (str.to_re "a") (str.to_re "b")))', '(str.in_re v (re.inter re.allchar (str.to_re "b")))',
+        '(str.in_re v (re.comp (str.to_re "b")))', '(str.in_re v (re.diff re.allchar (str.to_re "b")))',
+        '(str.in_re v (re.opt (str.to_re "b")))', '(str.in_re v (re.range "a" "c"))',
+        '(str.in_re v ((_ re.loop 1 2) (str.to_re "a")))' if False else '(str.in_re v (re.++ (str.to_re "a") (re.* (str.to_re "b"))))',
+        '(str.is_digit d)', '(= (str.to_code v) 97)', '(= (str.from_code 97) v)', '(= (str.from_int 1) d)',
+        '(= (str.++ v "x") "ax")', '(str.<= v "b")', '(= (* (str.to.int d) 2) 4)', '(= (div (str.to.int d) 2) 1)',
+        '(= (mod (str.to.int d) 2) 1)', '(= (+ (str.to.int d) 2) 3)', '(= (- (str.to.int d) 2) 1)',
+        '(>= (str.to.int d) 1)', '(<= (str.to.int d) 1)', '(> (str.to.int d) 1)', '(< (str.to.int d) 1)',
+        '(and (= v "a") (= d "1"))', '(or (= v "a") (= d "1"))', '(=> (= v "a") (= d "1"))', '(xor (= v "a") (= d "1"))',
+        '(= (^ (str.to.int d) 2) 4)', '(= (str.to.int d) (- 1))', '(= (str.to.int d) -1)',
+        '(ite (= v "a") (= d "1") (= d "2"))' if False else '(= v (str.++ "a" ""))',
+    ]
+    return [("lang", "forall <var> v in start: exists <digit> d in start: %s" % o) for o in ops]
+
+
+def c07_worker(job: Dict[str, Any]) -> Dict[str, Any]:
+    import warnings
+    warnings.filterwarnings("ignore")
+    gname, text = job["grammar"], job["text"]
+    gram = GRAMMARS[gname]
+    res: List[Dict[str, Any]] = []
+    desc = "[%s] %s" % (gname, text)
+    try:
+        F = parse(text, gram)
+    except BaseException as e:
+        return dict(job=job, desc=desc, rejected="%s: %s" % (type(e).__name__, str(e)[:200]), results=[])
+    try:
+        U = L.unparse_isla(F)
+    except Exception as e:
+        res.append(dict(name="unparse", verdict="violated", key="unparse/" + _exc_key(e), solver_s=0.0,
+                        what="unparse_isla raised %s: %s" % (type(e).__name__, str(e)[:200])))
+        return dict(job=job, desc=desc, results=res)
+    try:
+        F2 = parse(U, gram)
+    except BaseException as e:
+        kind = classify_unparse_failure(F, U)
+        res.append(dict(name="reparse", verdict="violated", key="reparse/%s/raises-%s" % (kind, type(e).__name__), solver_s=0.0,
+                        what="parse_isla rejects the unparsed text %r (%s: %s)" % (U, type(e).__name__, str(e)[:160])))
+        return dict(job=job, desc=desc, results=res, unparsed=U)
+    enc = fol.Encoder()
+    r = check_equiv(enc, F, F2, False, "reparse-equivalent", gname=gname)
+    if r["verdict"] == "violated":
+        r["key"] = "reparse-equivalent/inequivalent"
+        r["what"] = "re-parsed constraint evaluates differently: witness %s; unparsed text %r" % (r["witness"], U)
+    res.append(r)
+    # concrete side conditions (stated by the property itself)
+    if F2 == F:
+        res.append(dict(name="reparse-equal", verdict="discharged", solver_s=0.0))
+    else:
+        cls = classify_unparse_failure(F, U)
+        if cls == "other" and str(F) == str(F2):
+            cls = "same-text"     # only the internal tokenisation of a match expression differs
+        res.append(dict(name="reparse-equal", verdict="violated", key="reparse-equal/%s" % cls,
+                        solver_s=0.0, what="parse_isla(unparse_isla(F)) != F: F=%s ; F2=%s" % (str(F)[:200], str(F2)[:200])))
+    try:
+        U2 = L.unparse_isla(F2)
+        if U2 == U:
+            res.append(dict(name="unparse-stable", verdict="discharged", solver_s=0.0))
+        else:
+            res.append(dict(name="unparse-stable", verdict="violated", key="unparse-stable/%s" % classify_unparse_failure(F, U),
+                            solver_s=0.0, what="unparse(parse(unparse(F))) differs: %r vs %r" % (U[:200], U2[:200])))
+    except Exception as e:
+        res.append(dict(name="unparse-stable", verdict="violated", key="unparse-stable/" + _exc_key(e), solver_s=0.0,
+                        what="second unparse raised %s" % e))
+    guard = None
+    # (literals outside Z3's character range make Z3's own verdicts meaningless: no guard there)
+    if isinstance(F, (L.ForallFormula, L.ExistsFormula)) and "non-ascii-literal" not in classify_unparse_failure(F, U):
+        try:
+            W = type(F)(F.bound_variable, F.in_variable, L.NegatedFormula(F.inner_formula), F.bind_expression)
+            guard = fol.equivalent(enc.enc(F2), enc.enc(W), False, 5000)[0]
+        except fol.Unsupported:
+            guard = None
+    return dict(job=job, desc=desc, results=res, guard=guard, unparsed=U)
+
+
+def classify_unparse_failure(F: L.Formula, U: str = "") -> str:
+    """Failure class used as known-finding key: which construct of F the unparser mishandles."""
+    kinds = set()
+    import re as _re
+    if _re.search(r"\(str\.< ", U):
+        kinds.add("smt-op-not-in-grammar")
+
+    class V(L.FormulaVisitor):
+        def visit_smt_formula(self, f):
+            def walk(e, top=True):
+                if z3.is_not(e) and not top:
+                    kinds.add("smt-not-nested")
+                if z3.is_not(e) and top and (z3.is_and(e.children()[0]) or z3.is_or(e.children()[0])):
+                    kinds.add("smt-not-nested")
+                if z3.is_string_value(e) and ("\\u{" in e.sexpr() or any(ord(c) > 126 for c in e.as_string())):
+                    kinds.add("non-ascii-literal")
+                if z3.is_quantifier(e):
+                    kinds.add("smt-quantifier")
+                    return
+                for c in e.children():
+                    walk(c, False)
+            walk(f.formula)
+
+        def visit_forall_formula(self, f):
+            self._q(f)
+
+        def visit_exists_formula(self, f):
+            self._q(f)
+
+        def _q(self, f):
+            if f.bound_variable.name == "start" or any(
+                    isinstance(v, L.Constant) and v.name == f.bound_variable.name for v in L.VariablesCollector.collect(F)):
+                kinds.add("variable-named-like-constant")
+            if f.bind_expression is not None:
+                for e in f.bind_expression.bound_elements:
+                    for x in (e if isinstance(e, list) else [e]):
+                        if isinstance(x, L.DummyVariable) and not vlib.is_nonterminal(x.n_type):
+                            if any(ch in x.n_type for ch in '"\\\n\t\r{}[]'):
+                                kinds.add("mexpr-special-char")
+    try:
+        F.accept(V())
+    except Exception:
+        pass
+    return "+".join(sorted(kinds)) or "other"
